@@ -482,6 +482,62 @@ add("C03", "benign-split-lines-regex-lf-only", "codemodder/diff.py",
       "    import re\n    return re.findall(r\"[^\\n]*\\n|[^\\n]+\", text)\n")],
     "silent")
 
+# --------------------------------------------------------------------------- round-4 rules
+add("C07", "fold-prefilter-on-original-children", "core_codemods/combine_calls_base.py",
+    [("        for call_matcher in map(self.make_call_matcher, self.combinable_funcs):\n",
+      "        if not isinstance(original_node.left, cst.Call) and not isinstance(original_node.right, cst.Call):\n            return updated_node\n\n        for call_matcher in map(self.make_call_matcher, self.combinable_funcs):\n")],
+    "fire", "R-FOLD-SEES-UPDATED", "leave_BooleanOperation")
+add("C07", "benign-fold-prefilter-on-updated-children", "core_codemods/combine_calls_base.py",
+    [("        for call_matcher in map(self.make_call_matcher, self.combinable_funcs):\n",
+      "        if not isinstance(updated_node.left, (cst.Call, cst.BooleanOperation)) and not isinstance(updated_node.right, (cst.Call, cst.BooleanOperation)):\n            return updated_node\n\n        for call_matcher in map(self.make_call_matcher, self.combinable_funcs):\n")],
+    "silent")
+add("C07", "sql-pass-budget", "core_codemods/sql_parameterization.py",
+    [("        # Step (1)\n        find_queries = FindQueryCalls(self.context)\n",
+      "        self.passes = getattr(self, 'passes', 0)\n        self.passes += 1\n        if self.passes > 10:\n            return tree\n        # Step (1)\n        find_queries = FindQueryCalls(self.context)\n")],
+    "fire", "R-NO-WORK-BUDGET", "SQLQueryParameterizationTransformer")
+add("C05", "cli-pattern-lstrip-charset", "codemodder/cli.py",
+    [("        items = list(dict.fromkeys(values.split(\",\")).keys())\n", "        items = list(dict.fromkeys(v.lstrip(\"./\") for v in values.split(\",\")).keys())\n")],
+    "fire", "R-PATTERN-VERBATIM", "CsvListAction")
+add("C05", "match-files-lowercases-patterns", "codemodder/code_directory.py",
+    [("    patterns = (\n        [x.split(\":\")[0] for x in (patterns or [])]\n", "    patterns = (\n        [x.lower().split(\":\")[0] for x in (patterns or [])]\n")],
+    "fire", "R-PATTERN-VERBATIM", "filter_files")
+add("C12", "result-sets-combined-with-dict-update", "core_codemods/sonar/api.py",
+    [("        combined_result_set |= SonarResultSet.from_json(file)\n", "        combined_result_set.update(SonarResultSet.from_json(file))\n")],
+    "fire", "R-MERGE-OP", "process_sonar_findings")
+add("C02", "import-flag-overwritten-by-second-call", "core_codemods/fix_mutable_params.py",
+    [("        if new_var_decls:\n            # If we're adding statements to the body, we know a change took place\n",
+      "        if original_node.params.kwonly_params:\n            (_p, _d, add_annotation) = self._gather_and_update_params(original_node, updated_node)\n\n        if new_var_decls:\n            # If we're adding statements to the body, we know a change took place\n")],
+    "fire", "R-IMPORT-FLAG-REACHES", "leave_FunctionDef")
+add("C02", "benign-import-flag-accumulated", "core_codemods/fix_mutable_params.py",
+    [("        if new_var_decls:\n            # If we're adding statements to the body, we know a change took place\n",
+      "        if original_node.params.kwonly_params:\n            (_p, _d, second) = self._gather_and_update_params(original_node, updated_node)\n            add_annotation = add_annotation or second\n\n        if new_var_decls:\n            # If we're adding statements to the body, we know a change took place\n")],
+    "silent")
+add("C04", "discovery-runs-git-status", "codemodder/code_directory.py",
+    [("    return [\n        path\n        for path in Path(parent_path).rglob(\"*\")\n",
+      "    import subprocess\n    subprocess.run([\"git\", \"-C\", str(parent_path), \"status\", \"--porcelain\"], capture_output=True)\n    return [\n        path\n        for path in Path(parent_path).rglob(\"*\")\n")],
+    "fire", "R-NO-FOREIGN-PROCESS", "files_for_directory")
+add("C10", "semgrep-strict-flag", "codemodder/semgrep.py",
+    [("            \"--no-error\",\n", "            \"--no-error\",\n            \"--strict\",\n")],
+    "fire", "R-SCAN-TOLERANT", "codemodder.semgrep.run")
+add("C06", "override-accepts-line-span-without-columns", "core_codemods/jwt_decode_verify.py",
+    [("            same_line(pos, location) and fuzzy_column_match(pos, location)\n", "            (same_line(pos, location) and fuzzy_column_match(pos, location)) or pos.start.line <= location.start.line <= pos.end.line\n")],
+    "fire", "R-MATCH-COLUMNS", "JwtDecodeVerifySASTTransformer.match_location")
+add("C06", "requested-rules-extended-at-apply", "core_codemods/semgrep/api.py",
+    [("    @property\n    def origin(self):\n        return \"semgrep\"\n",
+      "    @property\n    def origin(self):\n        return \"semgrep\"\n\n    def apply(self, context):\n        self.requested_rules.extend(r for r in context.semgrep_prefilter_results or {} if r.endswith(self.name))\n        super().apply(context)\n")],
+    "fire", "R-REQUESTED-RULES", "SemgrepCodemod.apply")
+add("C08", "invert-returns-child-without-outer-parens", "core_codemods/invert_boolean_check.py",
+    [("        return cst.Comparison(\n            left=comparison.left,\n            comparisons=inverted_comparisons,\n            lpar=updated_node.lpar,\n            rpar=updated_node.rpar,\n        )\n",
+      "        return comparison.with_changes(comparisons=inverted_comparisons)\n")],
+    "fire", "R-PAREN-SAFE", "report_new_comparison")
+add("C01", "emptied-line-replaced-by-its-comments", "core_codemods/remove_debug_breakpoint.py",
+    [("                    return cst.RemovalSentinel.REMOVE\n\n        return updated_node\n", "                    return cst.RemovalSentinel.REMOVE\n\n        return updated_node\n\n    def leave_SimpleStatementLine(self, original_node, updated_node):\n        if not updated_node.body:\n            return cst.FlattenSentinel([l for l in original_node.leading_lines if l.comment])\n        return updated_node\n")],
+    "fire", "R-NODETYPE", "leave_SimpleStatementLine")
+add("C01", "available-name-asked-for-fresh-node", "core_codemods/replace_flask_send_file.py",
+    [("        available_name = self.generate_available_name(expr, [\"p\"])\n        named_expr = cst.NamedExpr(\n            target=cst.Name(available_name),\n            value=self._wrap_in_path(expr),",
+      "        wrapped = self._wrap_in_path(expr)\n        available_name = self.generate_available_name(wrapped, [\"p\"])\n        named_expr = cst.NamedExpr(\n            target=cst.Name(available_name),\n            value=wrapped,")],
+    "fire", "R-METADATA-ORIGINAL", "_build_args_with_path_and_named_expr")
+
 # --------------------------------------------------------------------------- C02
 add("C02", "secure-random-import-dropped", "core_codemods/secure_random.py",
     [("        self.add_needed_import(\"secrets\")\n", "")],
